@@ -199,6 +199,104 @@ def field_cases(run, rng, quick):
     return cases, metas, flags
 
 
+def _period(text):
+    """[first instant, last instant] of the period a partial date text YYYY[MM[DD[hh[mm[ss]]]]] names"""
+    import calendar
+    dt = datetime.datetime
+    y = int(text[0:4])
+    parts = [int(text[i:i + 2]) for i in range(4, len(text), 2)]
+    lo = [y, 1, 1, 0, 0, 0, 0]
+    hi = [y, 12, 31, 23, 59, 59, 999999]
+    for i, v in enumerate(parts):
+        lo[1 + i] = hi[1 + i] = v
+    if len(parts) < 2:
+        hi[2] = calendar.monthrange(y, hi[1])[1]
+    return dt(*lo), dt(*hi)
+
+
+def partial_date_cases(run, rng, quick):
+    """DATETIME ranges typed as partial dates: a partial date names a period; an inclusive bound takes the period
+    in, an exclusive bound leaves the whole period out.  Judged by QuerySem!InRange on ranks of instants."""
+    from whoosh import fields, qparser
+    from whoosh.filedb.filestore import RamStorage
+    dt = datetime.datetime
+    cases, metas = [], []
+    pool = [dt(1900, 2, 28, 23, 59, 59, 999999), dt(1900, 3, 1), dt(1999, 12, 31, 23, 59, 59, 999999), dt(2000, 1, 1),
+            dt(2000, 2, 28, 12), dt(2000, 2, 29), dt(2000, 2, 29, 23, 59, 59, 999999), dt(2000, 3, 1),
+            dt(2000, 12, 31, 23, 59, 59, 999999), dt(2001, 1, 1), dt(2001, 2, 28, 23, 59, 59), dt(2001, 3, 1),
+            dt(2009, 6, 15, 10, 30), dt(2010, 1, 1), dt(2010, 12, 31, 23, 59, 59, 999999), dt(2011, 1, 1),
+            dt(2024, 2, 29, 0, 0, 0), dt(2024, 2, 29, 23, 59, 59, 999999), dt(2024, 3, 1), dt(2100, 2, 28, 23, 59, 59, 999999),
+            dt(2100, 3, 1)]
+    texts = ["1900", "190002", "2000", "200002", "20000229", "2000022923", "200012", "2001", "200102", "2009", "200906",
+             "20090615", "2009061510", "200906151030", "2010", "201001", "201012", "2011", "2024", "202402", "20240229",
+             "210002", "2100", "20001231235959"]
+    for wi in range(2 if quick else 8):
+        ftype = fields.DATETIME(stored=True)
+        schema = fields.Schema(key=fields.ID(stored=True), num=ftype)
+        ix = RamStorage().create_index(schema)
+        for part in (pool[::2], pool[1::2]):
+            w = ix.writer()
+            for i, v in enumerate(part):
+                w.add_document(key=u"d%d" % i, num=v)
+            w.commit(merge=False)
+        parser = qparser.QueryParser("key", schema)
+        with ix.searcher() as s:
+            rd = s.reader()
+            uni = sorted(set(pool))
+
+            def rank(x):
+                # pool instants have odd ranks, every other instant the even rank between its neighbours
+                if x in uni:
+                    return 2 * uni.index(x) + 1
+                return 2 * len([v for v in uni if v < x])
+            adocs = [{"live": True, "t": {}, "n": {"num": [rank(rd.stored_fields(dn)["num"])]}, "b4": 4}
+                     for dn in range(rd.doc_count_all())]
+            qs = []
+            for _ in range(30 if quick else 80):
+                ta, tb = rng.choice(texts), rng.choice(texts)
+                if rng.random() < 0.2:
+                    tb = ta
+                if _period(ta)[0] > _period(tb)[0]:
+                    ta, tb = tb, ta
+                haslo, hashi = rng.random() < 0.85, rng.random() < 0.85
+                if not haslo and not hashi:
+                    haslo = True
+                loex, hiex = rng.random() < 0.4, rng.random() < 0.4
+                (alo, ahi), (blo, bhi) = _period(ta), _period(tb)
+                aq = {"op": "numrange", "f": "num", "lo": rank(ahi if loex else alo), "hi": rank(blo if hiex else bhi),
+                      "haslo": haslo, "hashi": hashi, "loexcl": loex, "hiexcl": hiex, "b4": 4}
+                obs = []
+                try:
+                    q = ftype.parse_range("num", ta if haslo else None, tb if hashi else None, loex, hiex)
+                    obs.append({"kind": "ids", "path": "partial dates: parse_range(%r, %r, %s, %s)" % (
+                        ta if haslo else None, tb if hashi else None, loex, hiex),
+                        "ids": sorted(int(d) for d in s.docs_for_query(q)) if q is not None else [-1]})
+                    text = u"num:%s%s TO %s%s" % ("{" if loex else "[", ta if haslo else "", tb if hashi else "", "}" if hiex else "]")
+                    q = parser.parse(text)
+                    obs.append({"kind": "ids", "path": "partial dates: parser %s" % text,
+                                "ids": sorted(int(d) for d in s.docs_for_query(q))})
+                except Exception as ex:
+                    obs.append({"kind": "error", "path": "partial dates %s %s" % (ta, tb), "err": type(ex).__name__,
+                                "msg": str(ex)[:120]})
+                qs.append({"q": aq, "obs": obs})
+                run.count()
+                # a partial date on its own is its period
+                lo, hi = _period(ta)
+                aq1 = {"op": "numrange", "f": "num", "lo": rank(lo), "hi": rank(hi), "haslo": True, "hashi": True,
+                       "loexcl": False, "hiexcl": False, "b4": 4}
+                obs = []
+                try:
+                    q = parser.parse(u"num:%s" % ta)
+                    obs.append({"kind": "ids", "path": "partial dates: parser num:%s" % ta,
+                                "ids": sorted(int(d) for d in s.docs_for_query(q))})
+                except Exception as ex:
+                    obs.append({"kind": "error", "path": "partial date %s" % ta, "err": type(ex).__name__, "msg": str(ex)[:120]})
+                qs.append({"q": aq1, "obs": obs})
+            cases.append({"idx": {"docs": adocs}, "qs": qs})
+            metas.append({"plan": ["partial-dates", wi], "nseg": 2, "deleted": 0})
+    return cases, metas
+
+
 def check(run):
     quick = run.tier == "quick"
     rng = random.Random(run.seed + 1313)
@@ -257,6 +355,9 @@ def check(run):
     rejects = qobs.judge(run, fcases, name="QueryCheck-numeric")
     from harness.props import c01
     c01.report(run, "C13", fcases, metas, rejects, "c13-field")
+    pcases, pmetas = partial_date_cases(run, rng, quick)
+    rejects = qobs.judge(run, pcases, name="QueryCheck-partial-dates")
+    c01.report(run, "C13", pcases, pmetas, rejects, "c13-partial-dates")
 
 
 def replay(run, rp):
